@@ -661,6 +661,14 @@ func c07(r *core.Run) {
 				}
 			}
 		}
+		// ... and on the error edge a reply is still sent: every path from there to a return of the
+		// encoder passes a call that always replies (the reply funnel, or a function all of whose
+		// paths pass one)
+		if callsAny(fn, funnelFns) {
+			errSucc := iff.Block().Succs[1-nilSucc]
+			silent := returnReachableWithout(errSucc, func(b *ssa.BasicBlock) bool { return blockAlwaysReplies(p, b, funnelFns, map[*ssa.Function]bool{}) })
+			r.Check(silent == nil, "P5", core.FuncName(fn), "marshal-error-edge-still-replies", p.InstrPos(c), "every path from the encoder's error edge to a return sends a reply", "when the value cannot be encoded the encoder can return without any reply having been sent: after a panic (a panicking handler, RequireValue re-raising the get handler's error) nothing else answers, so the requester gets no message at all instead of system.internalError")
+		}
 		r.Check(good, "P5", core.FuncName(fn), "marshal-output-only-on-err==nil", p.InstrPos(c), "the marshalled bytes are used only where err==nil; the error edge sends an error reply (C04.R4)", why)
 		// the marshal error becomes an internal error: it is handed to InternalError, or to ToError
 		// (json.Marshal never returns an *Error itself, so a plain assertion there yields InternalError)
@@ -1285,4 +1293,67 @@ func c07NoAppendIntoForeignPrefix(r *core.Run, rule string, rels []string) {
 	if bad == 0 {
 		r.OK(rule, "library", "no-append-into-a-prefix-of-a-parameter", "-", fmt.Sprintf("%d append calls scanned: none extends a truncated prefix of a slice parameter", n))
 	}
+}
+
+// callsAny: fn calls one of the functions directly.
+func callsAny(fn *ssa.Function, set map[*ssa.Function]bool) bool {
+	for _, c := range core.Calls(fn) {
+		if cal := c.Common().StaticCallee(); cal != nil && set[cal] {
+			return true
+		}
+	}
+	return false
+}
+
+// returnReachableWithout: a return block reachable from start through blocks
+// that are not barriers (nil if none).
+func returnReachableWithout(start *ssa.BasicBlock, barrier func(*ssa.BasicBlock) bool) *ssa.BasicBlock {
+	seen := map[*ssa.BasicBlock]bool{}
+	st := []*ssa.BasicBlock{start}
+	for len(st) > 0 {
+		b := st[len(st)-1]
+		st = st[:len(st)-1]
+		if seen[b] {
+			continue
+		}
+		seen[b] = true
+		if barrier(b) {
+			continue
+		}
+		if len(b.Instrs) > 0 {
+			if _, isRet := b.Instrs[len(b.Instrs)-1].(*ssa.Return); isRet {
+				return b
+			}
+		}
+		st = append(st, b.Succs...)
+	}
+	return nil
+}
+
+// blockAlwaysReplies: the block holds a (plain) call of a reply funnel, or of
+// a function of the package every path of which passes such a call.
+func blockAlwaysReplies(p *core.Prog, b *ssa.BasicBlock, funnels map[*ssa.Function]bool, busy map[*ssa.Function]bool) bool {
+	for _, in := range b.Instrs {
+		c, ok := in.(ssa.CallInstruction)
+		if !ok || core.IsGo(c) || core.IsDefer(c) {
+			continue
+		}
+		cal := c.Common().StaticCallee()
+		if cal == nil {
+			continue
+		}
+		if funnels[cal] {
+			return true
+		}
+		if cal.Pkg != b.Parent().Pkg || len(cal.Blocks) == 0 || busy[cal] || len(busy) > 6 {
+			continue
+		}
+		busy[cal] = true
+		silent := returnReachableWithout(cal.Blocks[0], func(b2 *ssa.BasicBlock) bool { return blockAlwaysReplies(p, b2, funnels, busy) })
+		delete(busy, cal)
+		if silent == nil {
+			return true
+		}
+	}
+	return false
 }
